@@ -81,6 +81,7 @@ fn main() {
         "c02-comp" => fscomp::c02_comp_cases(&mut rng, &tier, &arg(&args, "--aspect").unwrap_or_default(), &mut out),
         "c05" => repair::c05_cases(&mut rng, &tier, &mut out),
         "c05-blocks" => repair::c05_blocks_cases(&mut rng, &tier, &mut out),
+        "c05-ids" => repair::c05_ids_cases(&mut rng, &tier, &mut out),
         "c03" => integrity::c03_cases(&mut rng, &tier, &mut out),
         "c04" => integrity::c04_cases(&mut rng, &tier, &mut out),
         "c07" => confid::c07_cases(&mut rng, &tier, &mut out),
